@@ -427,6 +427,10 @@ class Interp(object):
                     return self.global_overrides[key]
             return self.native(getattr, [obj, name], {})
         if isinstance(obj, type):
+            if name.startswith('__') and name.endswith('__') and name in ('__dict__', '__mro__', '__name__', '__qualname__',
+                                                                           '__module__', '__bases__', '__class__', '__doc__',
+                                                                           '__subclasses__', '__slots__'):
+                return self.native(getattr, [obj, name], {})
             attr = _mro_lookup(obj, name)
             if attr is _MISSING:
                 meta_attr = _mro_lookup(type(obj), name)
